@@ -13,7 +13,12 @@ def run(ctx, w, spec, versions):
     rule = "C08.levels"
     ctx.rule(rule, "default levels (ban/kick/redact/state_default 50, invite/events_default/users_default 0, creator 100 without a power-levels event), "
                    "field names, and the fallbacks of user_power_level / event_power_level / get_as_int_or_default equal the specification's")
-    dex = D.Dex(w.lookup, adt_discr=w.adt_discr, unroll=1, inline=lambda n: "{closure" in n)
+    # the functions the rule states facts about stay opaque; any other helper of the power-levels module (e.g. an extracted
+    # `default_for_event(state_key)`) is inlined
+    ANCHORS = {"default_value", "get_as_int", "get_as_int_or_default", "user_power_level", "event_power_level", "users", "int_fields_map", "as_ref", "events",
+               "notifications", "deserialized_content", "new", "creator"}
+    dex = D.Dex(w.lookup, adt_discr=w.adt_discr, unroll=1,
+                inline=lambda n: "{closure" in n or (n.startswith(PL) and " as " not in n and n.rsplit("::", 1)[-1] not in ANCHORS))
     # defaults and names
     f = w.fn(PL + "RoomPowerLevelsIntField::default_value")
     got = {}
